@@ -1745,3 +1745,57 @@ def subbyte(repo):
     res.samples = [f"{f.name}: {len(arms)} arms; dynamic sub-unit arm present: {ok}"]
     res.analysed = [m.rel, hg.rel]
     return res
+
+
+def attrkey(repo):
+    """R-ATTRKEY (C14): "attributes only where ... allowed": the scope tables list pairs (name, is_default) -- `byte_order`
+    may be *defaulted* on a module or struct, not written there plainly.  In attribute_util._check_attributes the decision
+    "this attribute is allowed here" is one membership test of the full key in `attribute_specs`: (a) the key is a tuple
+    built from the attribute's name and its `is_default`; (b) an `if <key> not in attribute_specs:` whose test is not
+    combined with anything else (`attr.is_default and ...` lets the plain form of a default-only attribute through) and
+    whose body appends an error unconditionally; (c) the type validator of the attribute runs only on the other branch."""
+    res = RuleResult("R-ATTRKEY")
+    m = repo.mod("compiler/util/attribute_util.py")
+    fs = [f for f in m.top_funcs() if f.name == "_check_attributes"]
+    if not fs:
+        raise AnalysisError("attribute_util._check_attributes not found")
+    f = fs[0]
+    keys = {}
+    for n in walk_no_nested_funcs(f.node):
+        if isinstance(n, ast.Assign) and len(n.targets) == 1 and isinstance(n.targets[0], ast.Name) and isinstance(n.value, ast.Tuple) \
+                and len(n.value.elts) == 2:
+            srcs = [ast.unparse(e) for e in n.value.elts]
+            if srcs[0].endswith("name.text") and srcs[1].endswith("is_default"):
+                keys[n.targets[0].id] = n
+    res.instances = 3
+    if not keys:
+        res.add(f"{m.rel}|_check_attributes|key", "_check_attributes no longer builds the lookup key from (name, is_default)", m.rel, f.node.lineno, f.name)
+        return res
+    gate = None
+    weak = []
+    for n in walk_no_nested_funcs(f.node):
+        if isinstance(n, ast.If):
+            for c in ast.walk(n.test):
+                if isinstance(c, ast.Compare) and len(c.ops) == 1 and isinstance(c.ops[0], (ast.NotIn, ast.In)) \
+                        and ast.unparse(c.comparators[0]) == "attribute_specs":
+                    if c is n.test and isinstance(c.left, ast.Name) and c.left.id in keys and isinstance(c.ops[0], ast.NotIn):
+                        gate = n
+                    else:
+                        weak.append(n)
+    if gate is None:
+        w = weak[0] if weak else None
+        res.add(f"{m.rel}|_check_attributes|gate", "_check_attributes does not decide admission by the bare test `<(name, is_default)> not in attribute_specs`"
+                + (f" (found `{ast.unparse(w.test)[:70]}`)" if w is not None else "") + ": a default-only attribute written without `$default` "
+                "(`[byte_order: 'BigEndian']` on a struct, `[(cpp) enum_case: ...]` on a module) is accepted and silently ignored",
+                m.rel, (w or f.node).lineno, f.name)
+        return res
+    direct_append = any(isinstance(st, ast.Expr) and isinstance(st.value, ast.Call) and ast.unparse(st.value.func) == "errors.append" for st in gate.body)
+    if not direct_append:
+        res.add(f"{m.rel}|_check_attributes|gate-body", "an attribute whose key is not in the scope table does not unconditionally produce an error",
+                m.rel, gate.lineno, f.name)
+    validators_in_body = [c for st in gate.body for c in ast.walk(st) if isinstance(c, ast.Subscript) and ast.unparse(c.value) == "types"]
+    if validators_in_body or not any(isinstance(c, ast.Subscript) and ast.unparse(c.value) == "types" for st in gate.orelse for c in ast.walk(st)):
+        res.add(f"{m.rel}|_check_attributes|validator-branch", "the attribute's type validator does not run exactly on the admitted branch",
+                m.rel, gate.lineno, f.name)
+    res.analysed = [m.rel]
+    return res
